@@ -254,6 +254,94 @@ def translate(repo_root):
     return {"forwardsTo": forwards, "guarded_handlers": len(guarded), "unguarded_handlers": len(unguarded), "rows": len(rows)}
 
 
+# ---------------------------------------------------------------------------------------------
+# the worker's poll as a decision table: the real Worker.receiveMsg_WakeupMessage on an instance of the real class (created without
+# its constructor) for every combination of start_driving / cancel / state of the executor's future / samples queued
+# ---------------------------------------------------------------------------------------------
+def gen_poll(ctx):
+    from harness import sim_race as _sr
+
+    for sd in (False, True):
+        for cancel in (False, True):
+            for fut in ("none", "running", "done-ok", "done-exc"):
+                for samples in (0, 3):
+                    for exc in (["RuntimeError"] + _sr.FAULT_CLASSES[:6] if fut == "done-exc" else [None]):
+                        yield {"start_driving": sd, "cancel": cancel, "future": fut, "samples": samples, "exc": exc}
+
+
+def run_poll(ctx, case):
+    import logging
+    import threading
+
+    from esrally import metrics
+    from esrally.driver import driver
+    from esrally.track import track
+    from harness import sim_race
+
+    w = object.__new__(driver.Worker)
+    acts = []
+    fut = None
+    if case["future"] != "none":
+        fut = sim_race.SimFuture()
+        if case["future"] != "running":
+            fut._done = True
+            if case["future"] == "done-exc":
+                sc = sim_race.SIM
+                fut._exc = {"RuntimeError": RuntimeError}.get(case["exc"]) or None
+                if fut._exc is None:
+                    import importlib
+
+                    mod, _, name = case["exc"].rpartition(".")
+                    fut._exc = getattr(importlib.import_module(mod), name) if mod else getattr(__import__("builtins"), name)
+                fut._exc = fut._exc("injected")
+    cancel = threading.Event()
+    if case["cancel"]:
+        cancel.set()
+    sampler = driver.Sampler(start_timestamp=0.0, buffer_size=64)
+    task = track.Task("t", track.Operation("t", "sim"))
+    for i in range(case["samples"]):
+        sampler.add(task, 0, metrics.SampleType.Normal, {}, 1000.0 + i, float(i), 0.5, 0.25, 0.125, None, 1, "ops", 0.25, 0.5)
+    had_future = fut is not None
+
+    def note_state():
+        # state changes the handler made before the action being recorded
+        if case["start_driving"] and not w.start_driving and "clear-start-driving" not in acts:
+            acts.append("clear-start-driving")
+        if had_future and w.executor_future is None and "clear-future" not in acts:
+            acts.append("clear-future")
+
+    def send(dst, m):
+        note_state()
+        acts.append({"BenchmarkCancelled": "send-cancelled", "BenchmarkFailure": "send-failure", "UpdateSamples": None}.get(type(m).__name__, "send:" + type(m).__name__))
+        if acts[-1] is None:
+            acts.pop()
+
+    real_ship = getattr(driver.Worker.send_samples, "__wrapped__", driver.Worker.send_samples)
+
+    def ship():
+        note_state()
+        acts.append("ship-samples")
+        return real_ship(w)
+
+    w.__dict__.update(start_driving=case["start_driving"], cancel=cancel, executor_future=fut, worker_id=0, driver_actor="driver", wakeup_interval=1,
+                      logger=logging.getLogger("esrally.driver.driver"), sampler=sampler, send=send, send_samples=ship,
+                      wakeupAfter=lambda *a, **k: (note_state(), acts.append("rearm")), drive=lambda: (note_state(), acts.append("drive")))
+    handler = driver.Worker.receiveMsg_WakeupMessage
+    handler(w, object(), "self")
+    note_state()
+    m = ctx.model("racectl", "poll", {"start_driving": case["start_driving"], "cancel": case["cancel"], "future": case["future"]})
+    if m["r"] != acts:
+        ctx.diff("what one wake-up of the worker does", m["r"], acts)
+    # direct oracle (C09): a failed executor is reported and the worker neither drives on nor polls again; a cancellation likewise
+    if not case["start_driving"]:
+        if case["cancel"] and ("send-cancelled" not in acts or "drive" in acts):
+            ctx.fail("poll:cancel-not-reported", "a cancelled worker did not report BenchmarkCancelled (or drove on)", ["ship-samples", "send-cancelled"], acts)
+        if not case["cancel"] and case["future"] == "done-exc" and ("send-failure" not in acts or "drive" in acts or "rearm" in acts):
+            ctx.fail("poll:failure-not-reported", "a worker whose executor failed did not report BenchmarkFailure, or drove on / polled again", ["ship-samples", "send-failure"], acts)
+    ctx.sig(["poll", m.get("tags"), case["samples"] > 0], nontrivial=True)
+
+
 STREAMS = [
     Stream("faulted_races", gen, run, quick=800, thorough=100000, shards=16),
+    Stream("worker_poll_table", gen_poll, run_poll, quick=80, thorough=80, shards=1, exhaustive_thorough=True),
 ]
